@@ -6,7 +6,7 @@ import subprocess
 import sys
 
 PROPS_FILE = "Props/C15.v"
-MODEL_FILES = ["Model/Iter.v"]
+MODEL_FILES = ["Model/Iter.v", "Model/IterPy.v"]
 RULE = ("interleavings of up to 4 iterator steps / lazy-sequence indexings (iter, iteritems, iterkeys(min), keys(), items(), "
         "values(); positive, negative and out-of-range indices, len) with up to 4 mutations (insert before/inside/after the "
         "parked position, delete the current key, pop the minimum until leaves are emptied and unlinked, clear) on containers "
@@ -108,6 +108,7 @@ def run(ctx):
         outs = list(ex.map(run_batch, batches))
     hist = {}
     iterms, imeta = [], []
+    pterms, pmeta = [], []
     for batch, (rc, results, last, err) in zip(batches, outs):
         pending = batch
         while True:
@@ -120,7 +121,10 @@ def run(ctx):
                 for o in r["outcomes"]:
                     hist[o] = hist.get(o, 0) + 1
                 tr = r.get("trace")
-                if tr and tr["steps"]:
+                if tr and tr["steps"] and tr.get("py"):
+                    pterms.append(ptrace_term(tr))
+                    pmeta.append(j)
+                elif tr and tr["steps"]:
                     iterms.append(itrace_term(tr))
                     imeta.append(j)
                 if r["bad"]:
@@ -149,6 +153,13 @@ def run(ctx):
     for i in badi[:5]:
         ctx.corr_mismatch("Iter model (iter_next on the observed leaf store) vs the C iterator", {"job": imeta[i]})
     ctx.cov["iterator_traces_compared_with_model"] = total
+    hdr_py = hdr.replace("Model.Iter.", "Model.Iter Model.IterPy.")
+    total_p, badp, errsp = caseutil.eval_cases("c15py", hdr_py, "pcase_py_ok", pterms, shard=300, ctype="wpcase")
+    for e in errsp:
+        ctx.corr_mismatch("c15 python case file", e)
+    for i in badp[:5]:
+        ctx.corr_mismatch("IterPy model (py_next on the observed leaf store) vs the Python generator", {"job": pmeta[i]})
+    ctx.cov["python_iterator_traces_compared_with_model"] = total_p
     ctx.cov["iterator_step_outcomes"] = hist
     ctx.traces = ctx.evaluations
     ctx.sample({"job": jobs[0]})
@@ -163,6 +174,16 @@ def itrace_term(tr):
         return "WIS [%s] %s" % ("; ".join(leaf(l) for l in s[0]), out)
     return "IC %s %d %d [%s]" % ("None" if tr["cur"] is None else "(Some %d%%nat)" % tr["cur"], tr["last"], tr["lastoff"],
                                   "; ".join(step(s) for s in tr["steps"]))
+
+
+def ptrace_term(tr):
+    Z = lambda n: "(%d)" % n   # noqa
+    def leaf(l):
+        return "WLf %d [%s] %s" % (l[0], "; ".join(Z(k) for k in l[1]), "None" if l[2] is None else "(Some %d%%nat)" % l[2])
+    def step(s):
+        out = {"stop": "WPStop", "indexerror": "WPIndexError"}.get(s[1]) or ("(WPEntry %s)" % Z(s[2] if s[2] is not None else -999999))
+        return "WPS [%s] %s" % ("; ".join(leaf(l) for l in s[0]), out)
+    return "PIC %s [%s]" % ("None" if tr["cur"] is None else "(Some %d%%nat)" % tr["cur"], "; ".join(step(s) for s in tr["steps"]))
 
 
 def replay(ctx, data):
